@@ -152,6 +152,9 @@ pub struct Th {
     pub solo_mark: Option<usize>,
     /// the handle used by the current call has already given its token back
     pub tokenless: bool,
+    /// the published stream list this thread loaded in its current library operation (0 = none): it may still
+    /// dereference it
+    pub hold: usize,
     /// ops executed since the last observable change by any thread
     pub since: usize,
 }
@@ -206,6 +209,11 @@ pub struct St {
     /// tokens of handles that are inside their drop / unsubscribe call
     pub leaving: HashSet<usize>,
     pub gptr_addr: usize,
+    /// memory-manager trace (events "mm" for MQMemImplTrace): on/off, lock addresses, dense object ids
+    pub mm_trace: bool,
+    pub mm_lock_addr: usize,
+    pub wtf_lock_addr: usize,
+    pub mm_ids: HashMap<usize, usize>,
 }
 
 pub struct Rt {
@@ -261,7 +269,98 @@ impl St {
             tokens: HashMap::new(),
             leaving: HashSet::new(),
             gptr_addr: 0,
+            mm_trace: false,
+            mm_lock_addr: 0,
+            wtf_lock_addr: 0,
+            mm_ids: HashMap::new(),
         }
+    }
+
+    /// Dense per-run numbering of the objects the memory manager deals with (tokens, stream lists, positions)
+    pub fn mm_id(&mut self, addr: usize) -> usize {
+        let n = self.mm_ids.len() + 1;
+        *self.mm_ids.entry(addr).or_insert(n)
+    }
+
+    /// One op of (or relevant to) the memory manager, as an event for the trace specification MQMemImplTrace
+    fn mm_event(&mut self, tid: usize, kind: K, addr: usize, val: usize, ok: bool) {
+        if !self.mm_trace || addr == 0 {
+            return;
+        }
+        let arg = self.th[tid].pend.map(|p| p.arg).unwrap_or(0);
+        let k = kind.name();
+        let ev = if addr == self.mm_epoch_addr {
+            json!({"e":"mm","t":tid,"k":k,"loc":"mm_epoch","id":0,"v":val & 0xffff,"ok":ok})
+        } else if addr == self.mm_lock_addr {
+            json!({"e":"mm","t":tid,"k":k,"loc":"mm_lock","id":0,"v":0,"ok":ok})
+        } else if addr == self.wtf_lock_addr {
+            json!({"e":"mm","t":tid,"k":k,"loc":"wtf_lock","id":0,"v":0,"ok":ok})
+        } else if addr == self.signal_addr {
+            match kind {
+                K::Shim(OpKind::Load) => json!({"e":"mm","t":tid,"k":k,"loc":"signal","id":0,"v":val & 3,"ok":ok}),
+                K::Shim(OpKind::FetchOr) if arg == 1 => json!({"e":"mm","t":tid,"k":k,"loc":"signal","id":0,"v":val & 3,"ok":ok}),
+                K::Shim(OpKind::FetchAnd) => json!({"e":"mm","t":tid,"k":k,"loc":"signal","id":0,"v":val & 3,"ok":ok}),
+                _ => return,
+            }
+        } else if addr == self.gptr_addr {
+            match kind {
+                K::Shim(OpKind::Load) => {
+                    let id = self.mm_id(val);
+                    json!({"e":"mm","t":tid,"k":k,"loc":"gptr","id":id,"v":0,"ok":ok})
+                }
+                K::Shim(OpKind::Cas) => {
+                    let id = self.mm_id(val);
+                    let n = self.mm_id(arg);
+                    json!({"e":"mm","t":tid,"k":k,"loc":"gptr","id":id,"v":n,"ok":ok})
+                }
+                _ => return,
+            }
+        } else if self.allocs.get(&addr).map(|a| a.2.contains("MemToken")).unwrap_or(false) {
+            let id = self.mm_id(addr);
+            json!({"e":"mm","t":tid,"k":k,"loc":"tok","id":id,"v":val & 0xffff,"ok":ok})
+        } else {
+            return;
+        };
+        self.api.push(ev);
+    }
+
+    fn mm_obj_event(&mut self, k: &str, addr: usize) {
+        if !self.mm_trace || !self.active || self.abort {
+            return;
+        }
+        if let Some(t) = TID.with(|c| c.get()) {
+            let id = self.mm_id(addr);
+            self.api.push(json!({"e":"mm","t":t,"k":k,"loc":"obj","id":id,"v":0,"ok":true}));
+        }
+    }
+
+    /// The memory manager's state at the start of the scheduled part of a run (read from memory)
+    pub fn mm_init_event(&mut self) -> Option<Value> {
+        if !self.mm_trace || self.mm_epoch_addr == 0 || self.gptr_addr == 0 {
+            return None;
+        }
+        let rd = |a: usize| unsafe { std::ptr::read_volatile(a as *const usize) };
+        let epoch = rd(self.mm_epoch_addr) & 0xffff;
+        let g = rd(self.gptr_addr);
+        let gid = self.mm_id(g);
+        let mut toks: Vec<(usize, usize)> = self
+            .allocs
+            .iter()
+            .filter(|(a, v)| v.2.contains("MemToken") && !self.retired.contains_key(*a))
+            .map(|(a, v)| (v.3, *a))
+            .collect();
+        toks.sort();
+        let mut ids = Vec::new();
+        let mut vals = Vec::new();
+        for (_, a) in toks {
+            ids.push(self.mm_id(a));
+            vals.push(rd(a) & 0xffff);
+        }
+        let mut ret: Vec<usize> = self.retired.keys().cloned().collect();
+        ret.sort();
+        let wtf: Vec<usize> = ret.into_iter().map(|a| self.mm_id(a)).collect();
+        let sig = if self.signal_addr != 0 { rd(self.signal_addr) & 3 } else { 0 };
+        Some(json!({"e":"mminit","epoch":epoch,"gptr":gid,"toks":ids,"tokv":vals,"wtf":wtf,"sig":sig}))
     }
 
     /// Operations of the memory manager are not scheduling points in lockstep replay
@@ -353,6 +452,7 @@ impl Rt {
                 retrying: false,
                 solo_mark: None,
                 tokenless: false,
+                hold: 0,
                 since: 0,
             })
             .collect();
@@ -618,6 +718,24 @@ impl Rt {
         if kind == K::Shim(OpKind::Store) && st.tokens.contains_key(&addr) {
             st.tokens.insert(addr, val);
         }
+        if st.mm_trace {
+            st.mm_event(tid, kind, addr, val, ok);
+        }
+        if addr != 0 {
+            if addr == st.gptr_addr {
+                match kind {
+                    K::Shim(OpKind::Load) => st.th[tid].hold = val,
+                    K::Shim(OpKind::Cas) if !ok => st.th[tid].hold = val,
+                    _ => {}
+                }
+            } else if addr == st.signal_addr && kind == K::Shim(OpKind::Load) {
+                // a new library operation starts: nothing is held over from the previous one
+                st.th[tid].hold = 0;
+            } else if addr == st.mm_lock_addr && kind == K::Shim(OpKind::MutexUnlock) {
+                // sections under the manager's lock are never entered while a list is still in use
+                st.th[tid].hold = 0;
+            }
+        }
         if st.is_transparent(kind, addr, arg) {
             return;
         }
@@ -773,6 +891,12 @@ impl vh::Runtime for Rt {
         let mut st = self.lock();
         let e = st.cur_epoch;
         st.retired.insert(addr, e);
+        st.mm_obj_event("retire", addr);
+        if let Some(t) = TID.with(|c| c.get()) {
+            if t < st.th.len() && st.th[t].hold == addr {
+                st.th[t].hold = 0;
+            }
+        }
         if st.allocs.get(&addr).map(|a| a.2.contains("MemToken")).unwrap_or(false) {
             st.live_tokens -= 1;
             st.tokens.remove(&addr);
@@ -795,10 +919,23 @@ impl vh::Runtime for Rt {
         st.alloc_seq += 1;
         let seq = st.alloc_seq;
         st.allocs.insert(addr, (bytes, 0, ty, seq));
+        if ty.contains("MemToken") {
+            st.mm_obj_event("tokalloc", addr);
+        }
     }
     fn on_dealloc(&self, addr: usize, bytes: usize, align: usize) -> bool {
         let mut st = self.lock();
         let known = st.allocs.remove(&addr);
+        if st.retired.contains_key(&addr) {
+            st.mm_obj_event("release", addr);
+            // epoch protocol (MQMemImpl: NoUseAfterFree): nobody is between loading this list and the end of its use
+            if st.active && !st.abort {
+                let holders: Vec<usize> = (0..st.th.len()).filter(|t| st.th[*t].hold == addr).collect();
+                if !holders.is_empty() {
+                    st.api.push(json!({"e":"heldfree","blk":(addr & 0x3fff_ffff),"holders":holders}));
+                }
+            }
+        }
         if let Some(e) = st.retired.remove(&addr) {
             // epoch protocol: a block handed over for deferred release may only be released after an epoch
             // change that followed the hand-over (teardown, when no handle owns a token any more, excepted)
